@@ -80,6 +80,15 @@ class LatticeEngine(EngineBase):
 
     def _propagate_from(self, name, path, system, ens_set, msg_file, reverse=False):
         left, _, right = ens_set["interfaces"]
+        draw_log = os.environ.get("INFV_DRAW_LOG")
+        if draw_log:
+            # which stream this engine instance is about to draw from (PCG64 increment = stream identity)
+            try:
+                inc = self.rgen.bit_generator.state["state"]["inc"]
+            except Exception:  # noqa: BLE001
+                inc = "none"
+            with open(draw_log, "a") as lf:
+                lf.write(f"{id(self)} {inc}\n")
         x = read_lat(system.config[0])[system.config[1] if system.config[1] is not None else 0]
         traj_file = os.path.join(self.exe_dir, f"{name}.{self.ext}")
         success, status = False, "?"
